@@ -138,6 +138,9 @@ package dagsync
 //@   at call Sync#1: assert held(h.syncMutex) && has(h.subscriber.scopedBlockHook, h.peerID) && arg2 == nextCid && arg3 == sel
 //@   at call Sync#2: assert held(h.syncMutex) && has(h.subscriber.scopedBlockHook, h.peerID) && arg2 == *segSync0 && arg3 == segmentSel
 //@   ensures-local !has(h.subscriber.scopedBlockHook, h.peerID) && !held(h.syncMutex)
+// C04: a failure reported by the hook (FailSync) during any segment fails the sync, whatever else the hook
+// did in that segment (named no next block, reached the stop block, ...)
+//@   ensures-local result1 == nil && syncBySegment ==> segSync.err == nil
 // C01, segmentation arithmetic (any segment size): each segment asks for nextDepth = min(segdl, D - depthSoFar)
 // blocks where D is the depth of the original selector (unbounded if it has none); the segments' depths
 // sum up to depthSoFar and never exceed D; the loop stops once D is reached, at the stop CID, or when
